@@ -263,6 +263,14 @@ def hosts(rule: str):
         o, _ = instance(rule, "x", "c0", nodes, inits)
         nodes.append(oh.make_node("Add", [o, "three"], ["z"]))
         finish("host already has an initializer named like the replacement's", nodes, inits, ["z"], 1)
+        # ... that no node consumes: it is a graph output only / an overridable graph input only
+        nodes, inits = [], [nh.from_array(np.array([[7.0, 8.0], [9.0, 1.5]], dtype=np.float32), "three")]
+        o, _ = instance(rule, "x", "c1", nodes, inits)
+        finish("host initializer named like the replacement's is only a graph output", nodes, inits, [o, "three"], 1)
+        nodes, inits = [], [nh.from_array(np.array([[7.0, 8.0], [9.0, 1.5]], dtype=np.float32), "three")]
+        o, _ = instance(rule, "x", "c2", nodes, inits)
+        nodes.append(oh.make_node("Abs", [o], ["z"]))
+        finish("host initializer named like the replacement's is only an unused overridable graph input", nodes, inits, ["z"], 1, inputs=("x", "three"))
     return out
 
 
